@@ -11,7 +11,8 @@
    was wrong. *)
 From Aelys Require Import Base.Tactics Extracted.ValueConsts Extracted.Opcodes Extracted.OpcodeSelectTables
   Extracted.DispatchArms Model.Value
-  Proofs.ValueProofs Model.VmArith Proofs.VmArithProofs Model.OpcodeSelect Proofs.OpcodeSelectProofs.
+  Proofs.ValueProofs Model.VmArith Proofs.VmArithProofs Proofs.CodecProofs Model.OpcodeSelect Proofs.OpcodeSelectProofs
+  Model.TypedArray Proofs.TypedArrayProofs.
 From Coq Require Import Floats.
 Local Open Scope N_scope.
 
@@ -42,16 +43,18 @@ Theorem typed_sound_eq_ff_mistyped : forall hv o a b,
   is_float a && is_float b = false -> t_cmp_ff hv o a b = g_cmp hv o a b.
 Proof. exact typed_eq_ff_nonfloat. Qed.
 
-(* ... on two floats: PARTIAL.  Missing: the codec fact `codec_eq_fact` (primitive-float == of the
-   decoded operands = IEEE == on the bit patterns as defined in Model/Value.v) is a premise, not
-   proved; it is checked on a grid (C06_codec_grid) and by the hx_vmop tie.  The excluded case
-   a = b = NaN is a real difference of the two equalities (eq_on_nan_differs), not a misread. *)
-Theorem typed_sound_eq_ff_partial : forall hv o a b,
-  codec_eq_fact ->
-  is_ord o = false -> a < W64 -> b < W64 -> is_float a = true -> is_float b = true ->
+(* ... and on two floats, unless they are one and the same NaN pattern (eq_on_nan_differs) *)
+Theorem typed_sound_eq_ff : forall hv o a b,
+  a < W64 -> b < W64 -> is_float a = true -> is_float b = true ->
   (a <> b \/ is_nan_bits a = false) ->
   t_cmp_ff hv o a b = g_cmp hv o a b.
-Proof. exact typed_eq_ff_agrees_under_codec. Qed.
+Proof. exact typed_eq_ff_floats. Qed.
+
+(* the float codec of the model agrees with the IEEE == of Model/Value.v on all 64-bit words
+   (uses the standard-library axioms FloatAxioms.eqb_spec and Prim2SF_SF2Prim) *)
+Theorem codec_eq : forall a b, a < W64 -> b < W64 ->
+  PrimFloat.eqb (f_of_bits a) (f_of_bits b) = f64_eq a b.
+Proof. exact codec_eq_all. Qed.
 
 Theorem typed_total_sound_arith_imm : forall hv o a c,
   c < 256 -> t_arith_imm hv o a c = g_arith hv o a (v_int (Z.of_N c)).
@@ -70,6 +73,17 @@ Proof. exact typed_bit_imm_total. Qed.
 Theorem generic_cmp_on_ints : forall hv o x y,
   in48 x -> in48 y -> g_cmp hv o (v_int x) (v_int y) = ROk (v_bool (int_cmp o x y)).
 Proof. exact g_cmp_ints. Qed.
+
+(* "or panics": every int a specialised or generic opcode reads is a 48-bit value, and on 48-bit
+   operands the non-wrapping i64 operators of the int kernels (unary -, /, %) cannot overflow *)
+Theorem int_operands_are_48_bit : forall w z, as_int w = Some z -> in48 z.
+Proof. exact as_int_in48. Qed.
+
+Theorem int_kernels_cannot_overflow_i64 : forall l r,
+  in48 l -> in48 r ->
+  is_i64 (- l) = true /\ is_i64 (l + r) = true /\ is_i64 (l - r) = true /\
+  (r <> 0%Z -> is_i64 (Z.quot l r) = true /\ is_i64 (Z.rem l r) = true).
+Proof. exact int_ops_stay_in_i64. Qed.
 
 (* ---------------------------------------------------------------- loop super-instructions *)
 (* WhileLoopLt is the generic `<` (None = its type error) on every pair of words *)
@@ -113,6 +127,12 @@ Proof. exact guarded_ord_ffg_total. Qed.
 Theorem guarded_sound_eq_ints : forall hv o x y,
   in48 x -> in48 y -> gd_cmp_iig hv o (v_int x) (v_int y) = g_cmp hv o (v_int x) (v_int y).
 Proof. exact guarded_eq_ints. Qed.
+
+Theorem guarded_sound_eq_floats : forall hv o a b,
+  a < W64 -> b < W64 -> is_float a = true -> is_float b = true ->
+  (a <> b \/ is_nan_bits a = false) ->
+  gd_cmp_iig hv o a b = g_cmp hv o a b /\ gd_cmp_ffg hv o a b = g_cmp hv o a b.
+Proof. exact guarded_eq_floats. Qed.
 
 Theorem guarded_sound_eq_nonnumeric : forall hv o a b,
   a < W64 -> b < W64 -> is_num a && is_num b = false ->
@@ -160,12 +180,61 @@ Theorem selected_opcode_sound_all_words : forall hv op l r a b,
   run_selected hv op l r a b = Some (run_binsem hv (generic_sem op) a b).
 Proof. exact selected_sound_all_words. Qed.
 
-(* == and != : the same when no operand is a float and int operands are words Value::int builds *)
+(* == and != : the same when both operands are floats or neither is, int operands are words
+   Value::int builds, and the operands are not one and the same NaN pattern.  Not covered: an int
+   compared with a float (needs facts about `i as f64`). *)
 Theorem selected_eq_sound : forall hv op l r a b,
   is_eqop op = true -> a < W64 -> b < W64 ->
-  is_float a = false -> is_float b = false -> canon_int a -> canon_int b ->
+  is_float a = is_float b -> canon_int a -> canon_int b ->
+  (a <> b \/ is_nan_bits a = false) ->
   run_selected hv op l r a b = Some (run_binsem hv (generic_sem op) a b).
 Proof. exact selected_eq_sound. Qed.
+
+(* ---------------------------------------------------------------- typed collection elements
+   (Model/TypedArray.v: the storage behind Array<T> / Vec<T>, used by every ArrayLoad/Get/Store and
+   VecPush/Pop/Load/Get/Store opcode whatever its type suffix) *)
+(* a typed storage only ever hands out values of its element kind ... *)
+Theorem typed_array_get_has_element_kind : forall d i w,
+  wf d -> aget d i = Some w -> word_fits (kind_of_data d) w = true.
+Proof. exact aget_kind. Qed.
+
+(* ... refuses (reports failure, storage unchanged) a value of another kind, on store and on push ... *)
+Theorem typed_array_rejects_other_kind : forall d i w,
+  word_fits (kind_of_data d) w = false -> aset d i w = None /\ apush d w = None.
+Proof. exact aset_rejects_other_kind. Qed.
+
+(* ... and a successful store keeps kind and length, reads back as the stored value and leaves
+   the other elements alone; a fitting value at a valid index is always accepted *)
+Theorem typed_array_store_spec : forall d d' i w,
+  aset d i w = Some d' ->
+  kind_of_data d' = kind_of_data d /\ alen d' = alen d /\
+  word_fits (kind_of_data d) w = true /\
+  aget d' i = Some (canon (kind_of_data d) w) /\
+  forall j, j <> i -> aget d' j = aget d j.
+Proof. exact aset_spec. Qed.
+
+Theorem typed_array_store_total : forall d i w,
+  (i < alen d)%nat -> word_fits (kind_of_data d) w = true -> exists d', aset d i w = Some d'.
+Proof. exact aset_total. Qed.
+
+Theorem typed_array_push_pop : forall d d' w,
+  apush d w = Some d' -> apop d' = Some (canon (kind_of_data d) w, d).
+Proof. exact apush_pop. Qed.
+
+(* well-formedness (float patterns are 64-bit words) holds initially and is preserved *)
+Theorem typed_array_wf_preserved : forall d d' i w k n,
+  wf (anew k n) /\
+  (wf d -> w < W64 -> aset d i w = Some d' -> wf d') /\
+  (wf d -> w < W64 -> apush d w = Some d' -> wf d').
+Proof. intros d d' i w k n. exact (conj (anew_wf k n) (conj (aset_wf d d' i w) (apush_wf d d' w))). Qed.
+
+Example C06_typed_array_nonvacuous :
+  aset (anew KI 2) 0 (v_int 7) = Some (DInts [7%Z; 0%Z]) /\
+  aset (anew KI 2) 0 0x4004000000000000 = None /\
+  aget (DFloats [0x4004000000000000]) 0 = Some 0x4004000000000000 /\
+  apush (DBools []) (v_int 1) = None /\
+  wf (anew KF 3).
+Proof. exact typed_array_nonvacuous. Qed.
 
 (* ---------------------------------------------------------------- generated structure of the dispatch loop *)
 (* the VM's dispatch arms (numeric literals in the .inc files) are the enum's discriminants *)
